@@ -8,6 +8,7 @@ Section Proofs.
 Variables (St Up : Type).
 Variable apply : St -> Up -> St.
 Variable uid : Up -> Z.
+Variable refuses : St -> Up -> bool.
 Variable maxp : Z.
 Variable m : Z.   (* the monitor under consideration *)
 
@@ -38,7 +39,8 @@ Record inv (st : mstore) (base : monitor) (pend : list Up) : Prop := {
   i_mon : exists sent, get st (KMon m) = Some (VMon sent base);
   i_chain : chain base pend;
   i_pend : forall u, In u pend -> get st (KUpd m (uid u)) = Some (VUpd u);
-  i_above : forall i v, get st (KUpd m i) = Some v -> mid base < i -> exists u, In u pend /\ uid u = i }.
+  i_above : forall i v, get st (KUpd m i) = Some v -> mid base < i -> exists u, In u pend /\ uid u = i;
+  i_acc : forall c u, nth_error pend c = Some u -> refuses (mst (fold_left upd (firstn c pend) base)) u = false }.
 
 Lemma chain_ids base pend : chain base pend ->
   map uid pend = zrange_from (mid base + 1) (List.length pend).
@@ -58,15 +60,16 @@ Qed.
 
 Lemma apply_updates_chain (st : mstore) : forall pend base,
   chain base pend -> (forall u, In u pend -> get st (KUpd m (uid u)) = Some (VUpd u)) ->
-  apply_updates _ _ apply uid st m base (map uid pend) = ROk (fold_left upd pend base).
+  (forall c u, nth_error pend c = Some u -> refuses (mst (fold_left upd (firstn c pend) base)) u = false) ->
+  apply_updates _ _ apply uid refuses st m base (map uid pend) = ROk (fold_left upd pend base).
 Proof.
-  induction pend as [|u r IH]; intros base C G; cbn [map apply_updates fold_left]; auto.
+  induction pend as [|u r IH]; intros base C G Acc; cbn [map apply_updates fold_left]; auto.
   destruct C as (E & C). rewrite (G u (or_introl eq_refl)).
   unfold update_monitor.
   replace (uid u =? mid base + 1) with true by (symmetry; apply Z.eqb_eq; exact E).
-  rewrite andb_false_r.
+  pose proof (Acc 0%nat u eq_refl) as A0. cbn in A0. rewrite A0. cbn [negb andb]. rewrite andb_false_r.
   change {| mid := uid u; mst := apply (mst base) u |} with (upd base u).
-  apply IH; auto. intros u' I. apply G. right. exact I.
+  apply IH; [exact C | intros u' I; apply G; right; exact I | intros c u' Hn; exact (Acc (S c) u' Hn)].
 Qed.
 
 Lemma upd_ids_in (st : mstore) i : In i (upd_ids st m) <-> exists v, In (KUpd m i, v) st.
@@ -88,9 +91,9 @@ Qed.
 
 (** Recovery on any store satisfying the invariant returns exactly the in-memory monitor. *)
 Lemma recover_inv st base pend : inv st base pend ->
-  read_with_updates _ _ apply uid st m = ROk (fold_left upd pend base).
+  read_with_updates _ _ apply uid refuses st m = ROk (fold_left upd pend base).
 Proof.
-  intros [ND (sent & Hm) C P A]. unfold read_with_updates. rewrite Hm.
+  intros [ND (sent & Hm) C P A Acc]. unfold read_with_updates. rewrite Hm.
   rewrite (zsort_unique _ (map uid pend)).
   - apply apply_updates_chain; auto.
   - apply NoDup_filter. apply upd_ids_nodup. exact ND.
@@ -130,13 +133,27 @@ Qed.
 
 Ltac sc := cbn [apply_sop durable limbo].
 
+Lemma nth_error_snoc {A} (l : list A) x c y : nth_error (l ++ [x]) c = Some y ->
+  (nth_error l c = Some y /\ firstn c (l ++ [x]) = firstn c l) \/ (c = List.length l /\ y = x /\ firstn c (l ++ [x]) = l).
+Proof.
+  intros H. destruct (Nat.lt_ge_cases c (List.length l)).
+  - left. rewrite nth_error_app1 in H by lia. split; auto.
+    rewrite firstn_app. replace (c - List.length l)%nat with 0%nat by lia. cbn. apply app_nil_r.
+  - right. rewrite nth_error_app2 in H by lia.
+    destruct (c - List.length l)%nat as [|k] eqn:E; cbn in H; [|destruct k; discriminate].
+    inversion H; subst. assert (c = List.length l) by lia. subst c. repeat split; auto.
+    rewrite firstn_app, Nat.sub_diag, firstn_all. cbn. apply app_nil_r.
+Qed.
+
 (** writing the next update *)
 Lemma sinv_write_update s base pend u :
   sinv s base pend -> uid u = mid (fold_left upd pend base) + 1 ->
+  refuses (mst (fold_left upd pend base)) u = false ->
   sinv (aop s (SWrite (KUpd m (uid u)) (VUpd u))) base (pend ++ [u]).
 Proof.
-  intros ([ND (sent & Hm) C P A] & L) E. split.
+  intros ([ND (sent & Hm) C P A Acc] & L) E Hacc. split.
   - constructor; sc.
+    6:{ intros c x Hn. destruct (nth_error_snoc _ _ _ _ Hn) as [(Hn' & ->)|(-> & -> & ->)]; auto. }
     + apply nodup_set. exact ND.
     + exists sent. rewrite get_set_other by discriminate. exact Hm.
     + apply chain_app; auto.
@@ -163,13 +180,14 @@ Lemma sinv_write_monitor s base pend sent mon' :
   mid base <= mid mon' ->
   sinv (aop s (SWrite (KMon m) (VMon sent mon'))) mon' [].
 Proof.
-  intros ([ND (sent0 & Hm) C P A] & L) Top Hle. split.
+  intros ([ND (sent0 & Hm) C P A Acc] & L) Top Hle. split.
   - constructor; sc.
     + apply nodup_set. exact ND.
     + exists sent. apply get_set_same.
     + exact I.
     + intros u [].
     + intros i v G Hi. rewrite get_set_other in G by discriminate. specialize (Top _ _ G). lia.
+    + intros c u Hn. destruct c; discriminate.
   - sc. intros k I T. apply in_l_del in I. destruct (L _ I T) as (i & -> & Hi). exists i. split; auto. lia.
 Qed.
 
@@ -177,7 +195,7 @@ Qed.
 Lemma sinv_remove_stale s base pend i lazy :
   sinv s base pend -> i <= mid base -> sinv (aop s (SRemove (KUpd m i) lazy)) base pend.
 Proof.
-  intros ([ND (sent & Hm) C P A] & L) Hi.
+  intros ([ND (sent & Hm) C P A Acc] & L) Hi.
   assert (Hnot : forall u, In u pend -> uid u <> i).
   { intros u I. clear - C I Hi. revert base C Hi. induction pend as [|u0 r IH]; intros base C Hi; [contradiction|].
     destruct C as (E0 & C). destruct I as [->|I]; [lia|]. apply (IH I _ C). cbn. lia. }
@@ -191,6 +209,7 @@ Proof.
       * intros u I. rewrite get_del_other; auto. intros Heq. inversion Heq. eapply Hnot; eauto.
       * intros j v G Hj. destruct (Z.eq_dec j i) as [->|Hne]; [lia|].
         rewrite get_del_other in G by congruence. eauto.
+      * exact Acc.
     + sc. intros k I T. apply in_l_del in I. auto.
 Qed.
 
@@ -198,7 +217,7 @@ Qed.
 Lemma sinv_other s base pend o :
   sinv s base pend -> touches (sop_key o) = false -> sinv (aop s o) base pend.
 Proof.
-  intros ([ND (sent & Hm) C P A] & L) T.
+  intros ([ND (sent & Hm) C P A Acc] & L) T.
   assert (Hk : forall k', touches k' = true -> k' <> sop_key o) by (intros k' T' ->; congruence).
   assert (TM : touches (KMon m) = true) by (cbn; apply Z.eqb_refl).
   assert (TU : forall i, touches (KUpd m i) = true) by (intros; cbn; apply Z.eqb_refl).
@@ -210,6 +229,7 @@ Proof.
       * exact C.
       * intros u I. rewrite get_set_other; auto.
       * intros i v' G Hi. rewrite get_set_other in G; eauto.
+      * exact Acc.
     + sc. intros k' I T'. apply in_l_del in I. auto.
   - split; [constructor; auto; eauto|]. sc. intros k' [<-|I] T'; [congruence|auto].
   - split.
@@ -219,13 +239,14 @@ Proof.
       * exact C.
       * intros u I. rewrite get_del_other; auto.
       * intros i v' G Hi. rewrite get_del_other in G; eauto.
+      * exact Acc.
     + sc. intros k' I T'. apply in_l_del in I. auto.
 Qed.
 
 (** What any observer sees (some limbo keys already gone) still satisfies the invariant. *)
 Lemma sinv_view s base pend gone : sinv s base pend -> inv (view mkey_eqb s gone) base pend.
 Proof.
-  intros ([ND (sent & Hm) C P A] & L).
+  intros ([ND (sent & Hm) C P A Acc] & L).
   set (keep := fun k : mkey => negb (existsb (fun g => mkey_eqb g k) gone && existsb (fun g => mkey_eqb g k) (limbo s))).
   assert (Hv : view mkey_eqb s gone = filter (fun kv => keep (fst kv)) (durable s)) by reflexivity.
   rewrite Hv. clear Hv.
@@ -246,6 +267,7 @@ Proof.
       clear - C I. revert base C. induction pend as [|u0 r IH]; intros base C; [contradiction|].
       destruct C as (E0 & C). destruct I as [->|I]; [lia|]. specialize (IH I _ C). cbn in IH. lia.
   - intros i v G Hi. rewrite (get_filter keep) in G. destruct (keep (KUpd m i)); [eauto|discriminate].
+  - exact Acc.
 Qed.
 
 (** * Histories *)
@@ -255,8 +277,13 @@ Qed.
     [call_ok cur c cur']: in-memory monitor before and after the call. *)
 Inductive call_ok : monitor -> call St Up -> monitor -> Prop :=
 | c_update cur u :
-    uid u = mid cur + 1 -> uid u < LEGACY_ID -> call_ok cur (CUpdate m (Some u) (upd cur u)) (upd cur u)
+    uid u = mid cur + 1 -> uid u < LEGACY_ID -> refuses (mst cur) u = false ->
+    call_ok cur (CUpdate m (Some u) (upd cur u)) (upd cur u)
 | c_full cur : call_ok cur (CUpdate m None cur) cur
+| c_refused cur u :
+    (* [update_monitor] returned Err (the state changed nonetheless): ChainMonitor persists the full monitor *)
+    uid u = mid cur + 1 -> uid u < LEGACY_ID -> refuses (mst cur) u = true ->
+    call_ok cur (CUpdate m None (upd cur u)) (upd cur u)
 | c_cleanup cur lazy gone : call_ok cur (CCleanup lazy gone) cur
 | c_other cur ops :
     Forall (fun o => touches (sop_key o) = false) ops -> call_ok cur (COther ops) cur.
@@ -334,7 +361,7 @@ Proof. intros C. unfold mem. rewrite (fold_upd_mid _ _ C). lia. Qed.
 Lemma cleanup_stale_benign s base pend gone lazy :
   sinv s base pend -> Forall (benign base) (cleanup_stale_ops _ _ (view mkey_eqb s gone) lazy).
 Proof.
-  intros SI. pose proof (sinv_view _ _ _ gone SI) as [ND (sent & Hm) _ _ _].
+  intros SI. pose proof (sinv_view _ _ _ gone SI) as [ND (sent & Hm) _ _ _ _].
   unfold cleanup_stale_ops. rewrite Forall_forall. intros o I.
   apply in_flat_map in I. destruct I as (m' & _ & I).
   destruct (get (view mkey_eqb s gone) (KMon m')) as [[sent' mon'|?|?]|] eqn:G; try contradiction.
@@ -354,8 +381,8 @@ Lemma call_prefix s cur c cur' : sinv_mem s cur -> call_ok cur c cur' ->
 Proof.
   intros (base & pend & SI & M & Top) OK k. cbv zeta.
   destruct k as [|k]; [right; split; auto; exists base, pend; auto|]. left.
-  pose proof SI as ([_ _ C _ _] & _).
-  inversion OK as [? u Eu Hl | ? | ? lazy gone | ? ops Fo]; subst; cbn [call_ops].
+  pose proof SI as ([_ _ C _ _ _] & _).
+  inversion OK as [? u Eu Hl Hr | ? | ? u Eu Hl Hr | ? lazy gone | ? ops Fo]; subst; cbn [call_ops].
   - (* update *)
     unfold update_ops.
     destruct (negb (uid u =? LEGACY_ID) && negb (maxp =? 0) && negb (uid u mod maxp =? 0)) eqn:D.
@@ -382,6 +409,14 @@ Proof.
     exists (mem base pend), []. split; [|split; auto].
     + eapply sinv_write_monitor; eauto. apply mem_mid; auto.
     + intros i v G. cbn [apply_sop durable limbo] in G. rewrite get_set_other in G by discriminate. eauto.
+  - (* refused update: the full (changed) monitor is persisted, no incremental update *)
+    unfold update_ops, persist_new_ops. cbn [firstn]. rewrite firstn_nil. unfold apply_sops. cbn [fold_left].
+    exists (upd (mem base pend) u), []. split; [|split; auto].
+    + eapply sinv_write_monitor; eauto.
+      * intros i v G. specialize (Top _ _ G). cbn. lia.
+      * pose proof (mem_mid _ _ C). cbn. lia.
+    + intros i v G. cbn [apply_sop durable limbo] in G. rewrite get_set_other in G by discriminate.
+      specialize (Top _ _ G). cbn. lia.
   - (* clean-up of stale updates *)
     apply sinv_mem_benign; auto. eapply cleanup_stale_benign; eauto.
   - (* other traffic *)
@@ -412,6 +447,7 @@ Proof.
       * exact I.
       * intros u [].
       * intros i v G. unfold kv_get in G. cbn in G. discriminate.
+      * intros c u Hn. destruct c; discriminate.
     + cbn. intros k [].
   - intros i v G. unfold kv_get in G. cbn in G. discriminate.
 Qed.
@@ -421,14 +457,30 @@ Qed.
 Theorem crash_consistent mon0 cs c before after k gone :
   hist_ok mon0 cs before -> call_ok before c after ->
   let s := crash_state _ _ uid maxp (CNew m mon0 :: cs) c k in
-  read_with_updates _ _ apply uid (view mkey_eqb s gone) m = ROk after \/
-  (k = 0%nat /\ read_with_updates _ _ apply uid (view mkey_eqb s gone) m = ROk before).
+  read_with_updates _ _ apply uid refuses (view mkey_eqb s gone) m = ROk after \/
+  (k = 0%nat /\ read_with_updates _ _ apply uid refuses (view mkey_eqb s gone) m = ROk before).
 Proof.
   intros HO OK. cbv zeta. unfold crash_state. cbn [run fold_left].
   pose proof (hist_full cs _ _ _ (sinv_init mon0) HO) as H.
   destruct (call_prefix _ _ _ _ H OK k) as [(base & pend & SI & M & _)|(E & base & pend & SI & M & _)]; cbv zeta in *.
   - left. rewrite <- M. apply recover_inv. apply sinv_view. exact SI.
   - right. split; auto. rewrite <- M. apply recover_inv. apply sinv_view. exact SI.
+Qed.
+
+(** Every incremental update found in the store after a history re-applies successfully, in order, to
+    the stored full monitor it follows (none of them is one that [update_monitor] refuses). *)
+Theorem stored_updates_reapply mon0 cs fin :
+  hist_ok mon0 cs fin ->
+  let s := run _ _ uid maxp {| durable := []; limbo := [] |} (CNew m mon0 :: cs) in
+  exists sent base pend,
+    get (durable s) (KMon m) = Some (VMon sent base) /\ mem base pend = fin /\ chain base pend /\
+    (forall u, In u pend -> get (durable s) (KUpd m (uid u)) = Some (VUpd u)) /\
+    (forall i v, get (durable s) (KUpd m i) = Some v -> mid base < i -> exists u, In u pend /\ uid u = i) /\
+    (forall c u, nth_error pend c = Some u -> refuses (mst (mem base (firstn c pend))) u = false).
+Proof.
+  intros HO. cbv zeta. cbn [run fold_left].
+  destruct (hist_full cs _ _ _ (sinv_init mon0) HO) as (base & pend & ([ND (sent & Hm) C P A Acc] & _) & M & _).
+  exists sent, base, pend. repeat split; auto.
 Qed.
 
 (** * Asynchronous store with in-order completion = a prefix of the issued operations *)
@@ -461,7 +513,7 @@ Qed.
 Theorem async_inorder mon0 cs fin k gone :
   hist_ok mon0 cs fin -> (1 <= k)%nat ->
   let s := apply_sops mkey_eqb empty_state (firstn k (issued _ _ uid maxp empty_state (CNew m mon0 :: cs))) in
-  exists r, read_with_updates _ _ apply uid (view mkey_eqb s gone) m = ROk r /\ mem_reached mon0 cs r.
+  exists r, read_with_updates _ _ apply uid refuses (view mkey_eqb s gone) m = ROk r /\ mem_reached mon0 cs r.
 Proof.
   intros HO Hk. cbv zeta. cbn [issued call_ops]. unfold persist_new_ops.
   destruct k as [|k]; [lia|]. cbn [app firstn]. unfold apply_sops. cbn [fold_left].
@@ -481,7 +533,9 @@ Record ainv (st : mstore) (base : monitor) (pend : list Up) : Prop := {
   a_chain : chain base pend;
   a_legacy : forall u, In u pend -> uid u < LEGACY_ID;
   a_above : forall i v, get st (KUpd m i) = Some v -> mid base < i ->
-            exists u, In u pend /\ uid u = i /\ v = VUpd u }.
+            exists u, In u pend /\ uid u = i /\ v = VUpd u;
+  a_acc : forall c u, nth_error pend c = Some u -> (exists v, get st (KUpd m (uid u)) = Some v) ->
+          refuses (mst (fold_left upd (firstn c pend) base)) u = false }.
 
 Lemma chain_in_range : forall pend base u, chain base pend -> In u pend ->
   mid base < uid u <= mid base + Z.of_nat (List.length pend).
@@ -501,11 +555,13 @@ Lemma apply_gappy (st : mstore) : forall pend base L,
   StronglySorted Z.lt L ->
   (forall i, In i L -> mid base < i /\ exists u, In u pend /\ uid u = i /\ get st (KUpd m i) = Some (VUpd u)) ->
   (forall u, In u pend -> present st (uid u) -> In (uid u) L) ->
-  exists c, apply_updates _ _ apply uid st m base L = ROk (mem base (firstn c pend)) /\
+  (forall c u, nth_error pend c = Some u -> present st (uid u) ->
+               refuses (mst (fold_left upd (firstn c pend) base)) u = false) ->
+  exists c, apply_updates _ _ apply uid refuses st m base L = ROk (mem base (firstn c pend)) /\
             (forall u, In u (firstn c pend) -> present st (uid u)) /\
             (forall u, nth_error pend c = Some u -> ~ present st (uid u)).
 Proof.
-  induction pend as [|u r IH]; intros base L C Leg SL HL HP.
+  induction pend as [|u r IH]; intros base L C Leg SL HL HP Acc.
   - destruct L as [|i L'].
     + exists 0%nat. cbn. repeat split; auto; intros; try contradiction; discriminate.
     + exfalso. destruct (HL i (or_introl eq_refl)) as (_ & u & [] & _).
@@ -520,13 +576,17 @@ Proof.
         assert (u' = u) by (eapply chain_head_unique; eauto; lia). subst u'.
         cbn [apply_updates]. rewrite Gu'. unfold update_monitor.
         replace (uid u =? mid base + 1) with true by (symmetry; apply Z.eqb_eq; lia).
-        rewrite andb_false_r. change {| mid := uid u; mst := apply (mst base) u |} with (upd base u).
+        rewrite andb_false_r.
+        assert (A0 : refuses (mst base) u = false).
+        { apply (Acc 0%nat u eq_refl). exists (VUpd u). rewrite Eu'. exact Gu'. }
+        rewrite A0. change {| mid := uid u; mst := apply (mst base) u |} with (upd base u).
         destruct (IH (upd base u) L' C' (fun x Ix => Leg x (or_intror Ix)) SL') as (c & Hc & Hp & Hn).
         -- intros j Ij. specialize (FL _ Ij). destruct (HL j (or_intror Ij)) as (_ & uj & Iuj & Euj & Guj).
            split; [cbn; lia|]. exists uj. repeat split; auto.
            destruct Iuj as [<-|Iuj]; auto. lia.
         -- intros x Ix Px. destruct (HP x (or_intror Ix) Px) as [Ex|Ix']; auto.
            pose proof (chain_in_range _ _ _ C' Ix) as R. cbn in R. lia.
+        -- intros c0 x Hn0 Px. exact (Acc (S c0) x Hn0 Px).
         -- exists (S c). cbn [firstn nth_error]. split; [exact Hc|]. split; auto.
            intros x [<-|Ix]; auto. exists (VUpd u). rewrite Eu'. exact Gu'.
       * (* a gap: stop here *)
@@ -541,11 +601,11 @@ Qed.
 (** Recovery from any such store returns the in-memory monitor obtained by applying the longest
     consecutive run of present updates: never a panic, never an error. *)
 Lemma recover_gappy st base pend : ainv st base pend ->
-  exists c, read_with_updates _ _ apply uid st m = ROk (mem base (firstn c pend)) /\
+  exists c, read_with_updates _ _ apply uid refuses st m = ROk (mem base (firstn c pend)) /\
             (forall u, In u (firstn c pend) -> present st (uid u)) /\
             (forall u, nth_error pend c = Some u -> ~ present st (uid u)).
 Proof.
-  intros [ND (sent & Hm) C Leg A]. unfold read_with_updates. rewrite Hm.
+  intros [ND (sent & Hm) C Leg A Acc]. unfold read_with_updates. rewrite Hm.
   apply apply_gappy; auto.
   - apply sorted_le_nodup_lt; [apply zsort_sorted|].
     eapply Permutation_NoDup; [apply zsort_perm|]. apply NoDup_filter. apply upd_ids_nodup. exact ND.
@@ -572,9 +632,10 @@ Proof. apply fold_upd_mid. Qed.
 (* the update write of an update-only call became durable *)
 Lemma asinv_write_update s base pend safe u :
   asinv s base pend safe -> uid u = mid (mem base pend) + 1 -> uid u < LEGACY_ID ->
+  refuses (mst (mem base pend)) u = false ->
   asinv (aop s (SWrite (KUpd m (uid u)) (VUpd u))) base (pend ++ [u]) safe.
 Proof.
-  intros ([ND (sent & Hm) C Leg A] & L & Top & Hs & P) E Hl.
+  intros ([ND (sent & Hm) C Leg A Acc] & L & Top & Hs & P) E Hl Hacc.
   pose proof (mem_mid_len _ _ C) as ML.
   split; [|split; [|split; [|split]]].
   - constructor; sc.
@@ -585,6 +646,9 @@ Proof.
     + intros i v G Hi. destruct (Z.eq_dec i (uid u)) as [->|Hne].
       * rewrite get_set_same in G. inversion G; subst. exists u. repeat split; auto. apply in_or_app. right. left. reflexivity.
       * rewrite get_set_other in G by congruence. destruct (A _ _ G Hi) as (x & Ix & Ex & Ev). exists x. repeat split; auto. apply in_or_app. auto.
+    + intros c x Hn (v' & G). destruct (nth_error_snoc _ _ _ _ Hn) as [(Hn' & ->)|(-> & -> & ->)]; [|exact Hacc].
+      apply (Acc c x Hn'). exists v'. rewrite get_set_other in G; auto.
+      intros Heq. inversion Heq as [Hid]. pose proof (chain_in_range _ _ _ C (nth_error_In _ _ Hn')). lia.
   - sc. intros k I T. apply in_l_del in I. auto.
   - sc. intros i v G. rewrite mem_app. cbn [upd mid]. destruct (Z.eq_dec i (uid u)) as [->|Hne]; [lia|].
     rewrite get_set_other in G by congruence. specialize (Top _ _ G). lia.
@@ -600,13 +664,16 @@ Lemma asinv_skip_update s base pend safe u :
   asinv s base pend safe -> uid u = mid (mem base pend) + 1 -> uid u < LEGACY_ID ->
   asinv s base (pend ++ [u]) safe.
 Proof.
-  intros ([ND (sent & Hm) C Leg A] & L & Top & Hs & P) E Hl.
+  intros ([ND (sent & Hm) C Leg A Acc] & L & Top & Hs & P) E Hl.
   split; [|split; [|split; [|split]]]; auto.
   - constructor; auto.
     + eauto.
     + apply chain_app; auto.
     + intros x I. apply in_app_or in I. destruct I as [I|[<-|[]]]; auto.
     + intros i v G Hi. destruct (A _ _ G Hi) as (x & Ix & Ex & Ev). exists x. repeat split; auto. apply in_or_app. auto.
+    + intros c x Hn (v' & G). destruct (nth_error_snoc _ _ _ _ Hn) as [(Hn' & ->)|(-> & -> & ->)].
+      * apply (Acc c x Hn'). eauto.
+      * specialize (Top _ _ G). lia.
   - intros i v G. rewrite mem_app. cbn [upd mid]. specialize (Top _ _ G). lia.
   - rewrite mem_app. cbn [upd mid]. lia.
   - intros x I Hx. apply in_app_or in I. destruct I as [I|[<-|[]]]; auto. lia.
@@ -617,7 +684,7 @@ Lemma asinv_write_monitor s base pend safe sent mon' :
   asinv s base pend safe -> mid (mem base pend) <= mid mon' ->
   asinv (aop s (SWrite (KMon m) (VMon sent mon'))) mon' [] safe.
 Proof.
-  intros ([ND (sent0 & Hm) C Leg A] & L & Top & Hs & P) Hle.
+  intros ([ND (sent0 & Hm) C Leg A Acc] & L & Top & Hs & P) Hle.
   pose proof (mem_mid_len _ _ C) as ML.
   split; [|split; [|split; [|split]]].
   - constructor; sc.
@@ -626,6 +693,7 @@ Proof.
     + exact I.
     + intros u [].
     + intros i v G Hi. rewrite get_set_other in G by discriminate. specialize (Top _ _ G). lia.
+    + intros c u Hn. destruct c; discriminate.
   - sc. intros k I T. apply in_l_del in I. destruct (L _ I T) as (i & -> & Hi). exists i. split; auto. lia.
   - sc. intros i v G. rewrite get_set_other in G by discriminate. specialize (Top _ _ G). cbn. lia.
   - cbn. lia.
@@ -634,7 +702,7 @@ Qed.
 
 Lemma asinv_benign s base pend safe o : asinv s base pend safe -> benign base o -> asinv (aop s o) base pend safe.
 Proof.
-  intros ([ND (sent & Hm) C Leg A] & L & Top & Hs & P) B.
+  intros ([ND (sent & Hm) C Leg A Acc] & L & Top & Hs & P) B.
   assert (TM : touches (KMon m) = true) by (cbn; apply Z.eqb_refl).
   assert (TU : forall i, touches (KUpd m i) = true) by (intros; cbn; apply Z.eqb_refl).
   assert (Hpend : forall u, In u pend -> mid base < uid u) by (intros u I; pose proof (chain_in_range _ _ _ C I); lia).
@@ -648,6 +716,7 @@ Proof.
         -- exact C.
         -- exact Leg.
         -- intros i v' G Hi. rewrite get_set_other in G; eauto.
+        -- intros c u Hn (v' & G). apply (Acc c u Hn). exists v'. rewrite get_set_other in G; auto.
       * sc. intros k' I T'. apply in_l_del in I. auto.
       * sc. intros i v' G. rewrite get_set_other in G; eauto.
       * exact Hs.
@@ -665,6 +734,7 @@ Proof.
         -- exact C.
         -- exact Leg.
         -- intros i v' G Hi. rewrite get_del_other in G; eauto.
+        -- intros c u Hn (v' & G). apply (Acc c u Hn). exists v'. rewrite get_del_other in G; auto.
       * sc. intros k' I T'. apply in_l_del in I. auto.
       * sc. intros i v' G. rewrite get_del_other in G; eauto.
       * exact Hs.
@@ -683,6 +753,9 @@ Proof.
         -- exact C.
         -- exact Leg.
         -- intros i v' G Hi. destruct (Z.eq_dec i j) as [->|Hne]; [lia|]. rewrite get_del_other in G by congruence. eauto.
+        -- intros c u Hn (v' & G). apply (Acc c u Hn). exists v'.
+           destruct (Z.eq_dec (uid u) j) as [Ej|Hne]; [rewrite Ej, get_del_same in G; discriminate|].
+           rewrite get_del_other in G by congruence. exact G.
       * sc. intros k' I T'. apply in_l_del in I. auto.
       * sc. intros i v' G. destruct (Z.eq_dec i j) as [->|Hne]; [rewrite get_del_same in G; discriminate|].
         rewrite get_del_other in G by congruence. eauto.
@@ -710,7 +783,7 @@ Lemma asinv_view s base pend safe gone : asinv s base pend safe ->
   ainv (view mkey_eqb s gone) base pend /\
   (forall u, In u pend -> uid u <= safe -> present (view mkey_eqb s gone) (uid u)).
 Proof.
-  intros ([ND (sent & Hm) C Leg A] & L & Top & Hs & P).
+  intros ([ND (sent & Hm) C Leg A Acc] & L & Top & Hs & P).
   set (keep := fun k : mkey => negb (existsb (fun g => mkey_eqb g k) gone && existsb (fun g => mkey_eqb g k) (limbo s))).
   assert (Hv : view mkey_eqb s gone = filter (fun kv => keep (fst kv)) (durable s)) by reflexivity.
   rewrite Hv. clear Hv.
@@ -724,6 +797,8 @@ Proof.
     + apply nodup_filter. exact ND.
     + exists sent. rewrite (get_filter keep). rewrite Hkeep; auto; [cbn; apply Z.eqb_refl|intros i Hi; discriminate].
     + intros i v G Hi. rewrite (get_filter keep) in G. destruct (keep (KUpd m i)); [eauto|discriminate].
+    + intros c u Hn (v' & G). apply (Acc c u Hn). rewrite (get_filter keep) in G.
+      destruct (keep (KUpd m (uid u))); [eauto|discriminate].
   - intros u I Hu. destruct (P _ I Hu) as (v & G). exists v. rewrite (get_filter keep). rewrite Hkeep; auto.
     + cbn. apply Z.eqb_refl.
     + intros i Hi. inversion Hi; subst i. pose proof (chain_in_range _ _ _ C I). lia.
@@ -745,10 +820,10 @@ Qed.
 (** Recovery from any state of the asynchronous persister: a monitor obtained from the stored one by a
     consecutive run of updates, at least as recent as [safe]. *)
 Lemma asinv_recover s base pend safe gone : asinv s base pend safe ->
-  exists c, read_with_updates _ _ apply uid (view mkey_eqb s gone) m = ROk (mem base (firstn c pend)) /\
+  exists c, read_with_updates _ _ apply uid refuses (view mkey_eqb s gone) m = ROk (mem base (firstn c pend)) /\
             safe <= mid (mem base (firstn c pend)).
 Proof.
-  intros H. pose proof H as ([_ _ C _ _] & _ & _ & Hs & _).
+  intros H. pose proof H as ([_ _ C _ _ _] & _ & _ & Hs & _).
   destruct (asinv_view _ _ _ _ gone H) as (AV & PV).
   destruct (recover_gappy _ _ _ AV) as (c & R & Hp & Hn). exists c. split; auto.
   rewrite (mem_mid_len _ _ (chain_firstn _ _ c C)).
@@ -781,7 +856,7 @@ Proof. intros (A & L & Top & Hs & P) Hall Hle. split; [|split; [|split; [|split]
 Lemma cleanup_stale_benign_a s base pend safe gone lazy :
   asinv s base pend safe -> Forall (benign base) (cleanup_stale_ops _ _ (view mkey_eqb s gone) lazy).
 Proof.
-  intros H. destruct (asinv_view _ _ _ _ gone H) as ([ND (sent & Hm) _ _ _] & _).
+  intros H. destruct (asinv_view _ _ _ _ gone H) as ([ND (sent & Hm) _ _ _ _] & _).
   unfold cleanup_stale_ops. rewrite Forall_forall. intros o I.
   apply in_flat_map in I. destruct I as (m' & _ & I).
   destruct (get (view mkey_eqb s gone) (KMon m')) as [[sent' mon'|?|?]|] eqn:G; try contradiction.
@@ -823,7 +898,7 @@ Lemma async_benign_call s base pend safe l :
    forall u, In u pend -> present (durable (apply_sops mkey_eqb s l)) (uid u)).
 Proof.
   intros H F. split; [apply asinv_benign_ops; auto|].
-  intros Hall u Iu. pose proof H as ([_ _ C _ _] & _). eapply present_benign_ops; eauto.
+  intros Hall u Iu. pose proof H as ([_ _ C _ _ _] & _). eapply present_benign_ops; eauto.
 Qed.
 
 (** one call of the asynchronous persister with an arbitrary durability outcome [x] *)
@@ -838,8 +913,8 @@ Lemma async_call s base pend safe cur c cur' x :
      forall u, In u pend' ->
        present (durable (apply_sops mkey_eqb s (sel_ops _ _ (call_ops _ _ uid maxp s c) x))) (uid u)).
 Proof.
-  intros H M OK. pose proof H as ([_ _ C _ _] & _ & Top & Hs & _).
-  inversion OK as [? u Eu Hl | ? | ? lazy gone | ? ops Fo]; subst; cbn [call_ops].
+  intros H M OK. pose proof H as ([_ _ C _ _ _] & _ & Top & Hs & _).
+  inversion OK as [? u Eu Hl Hr | ? | ? u Eu Hl Hr | ? lazy gone | ? ops Fo]; subst; cbn [call_ops].
   - (* update *)
     unfold update_ops.
     destruct (negb (uid u =? LEGACY_ID) && negb (maxp =? 0) && negb (uid u mod maxp =? 0)) eqn:D.
@@ -883,6 +958,20 @@ Proof.
     + assert (Hsel : select (@nil mop) rem = []) by (destruct rem as [|[|] ?]; reflexivity).
       try rewrite Hsel. cbn [select fold_left]. exists (mem base pend), []. split; [|split; [reflexivity|split]].
       * eapply asinv_write_monitor; eauto. lia.
+      * intros n. right. rewrite firstn_nil. reflexivity.
+      * intros _ _ x [].
+  - (* refused update: full (changed) monitor, or - if that write is not durable - a monitor that is
+       simply not recoverable beyond the stored state *)
+    unfold update_ops, persist_new_ops.
+    destruct x as [|rem]; cbn [sel_ops]; unfold apply_sops; cbn [fold_left].
+    + exists base, (pend ++ [u]). split; [|split; [|split]].
+      * apply asinv_skip_update; auto.
+      * apply mem_app.
+      * intros n. destruct (firstn_snoc pend u n) as [->| ->]; [left; eauto|right; apply mem_app].
+      * intros X. contradiction.
+    + assert (Hsel : select (@nil mop) rem = []) by (destruct rem as [|[|] ?]; reflexivity).
+      try rewrite Hsel. cbn [select fold_left]. exists (upd (mem base pend) u), []. split; [|split; [reflexivity|split]].
+      * eapply asinv_write_monitor; eauto. cbn. lia.
       * intros n. right. rewrite firstn_nil. reflexivity.
       * intros _ _ x [].
   - (* clean-up of stale updates, observing any view *)
@@ -952,6 +1041,7 @@ Proof.
     + exact I.
     + intros u [].
     + intros i v G. unfold kv_get in G. cbn in G. discriminate.
+    + intros c u Hn. destruct c; discriminate.
   - cbn. intros k [].
   - intros i v G. unfold kv_get in G. cbn in G. discriminate.
   - cbn. lia.
@@ -973,7 +1063,7 @@ Proof. induction cs1; intros cur mid_ cs2 fin H1 H2; inversion H1; subst; cbn; a
 Theorem async_safe mon0 cs fin sels gone :
   hist_ok mon0 cs fin ->
   let s := async_run _ _ uid maxp (@empty_state St Up) (CNew m mon0 :: cs) (SelWrite [] :: sels) in
-  exists r, read_with_updates _ _ apply uid (view mkey_eqb s gone) m = ROk r /\ In r (mems _ _ mon0 cs).
+  exists r, read_with_updates _ _ apply uid refuses (view mkey_eqb s gone) m = ROk r /\ In r (mems _ _ mon0 cs).
 Proof.
   intros HO. cbv zeta. cbn [async_run call_ops]. unfold persist_new_ops. cbn [sel_ops select].
   change (apply_sops mkey_eqb (@empty_state St Up) [SWrite (KMon m) (VMon (negb (maxp =? 0)) mon0)])
@@ -990,7 +1080,7 @@ Theorem async_reported mon0 cs1 cs2 fin1 fin sels1 sels2 gone :
   hist_ok mon0 cs1 fin1 -> hist_ok fin1 cs2 fin ->
   List.length sels1 = List.length cs1 -> Forall (fun x => x <> SelNone) sels1 ->
   let s := async_run _ _ uid maxp (@empty_state St Up) (CNew m mon0 :: cs1 ++ cs2) (SelWrite [] :: sels1 ++ sels2) in
-  exists r, read_with_updates _ _ apply uid (view mkey_eqb s gone) m = ROk r /\
+  exists r, read_with_updates _ _ apply uid refuses (view mkey_eqb s gone) m = ROk r /\
             In r (mems _ _ mon0 (cs1 ++ cs2)) /\ mid fin1 <= mid r.
 Proof.
   intros HO1 HO2 Hlen Fs. cbv zeta.
@@ -1036,7 +1126,7 @@ Theorem faulty_crash_consistent mon0 cs1 fin1 c after sels1 x k gone :
   List.length sels1 = List.length cs1 -> Forall (fun y => y <> SelNone) sels1 ->
   let s1 := async_run _ _ uid maxp (@empty_state St Up) (CNew m mon0 :: cs1) (SelWrite [] :: sels1) in
   let s := apply_sops mkey_eqb s1 (firstn k (sel_ops _ _ (call_ops _ _ uid maxp s1 c) x)) in
-  exists r, read_with_updates _ _ apply uid (view mkey_eqb s gone) m = ROk r /\
+  exists r, read_with_updates _ _ apply uid refuses (view mkey_eqb s gone) m = ROk r /\
             In r (mems _ _ mon0 (cs1 ++ [c])) /\ mid fin1 <= mid r.
 Proof.
   intros HO1 OK Hlen Fs. cbv zeta.
